@@ -248,8 +248,9 @@ class Vector():
 				# members only (sorting the members themselves is not canonical for partially ordered items)
 				hashes.sort()
 			# seed with the container's kind and length, spread over the whole range: 0, [0], (0,), (0, 0), {0},
-			# () and [] are different values, and an empty container must not hash like a small int
-			h = ((1 if isinstance(x, set) else 2 if isinstance(x, tuple) else 3) + 3 * len(hashes)) * 0x9E3779B97F4A7C15 % P
+			# () and [] are different values, and an empty container must not hash like a small int (nor like
+			# None: the multiplier is deliberately not the constant used for None above)
+			h = ((1 if isinstance(x, set) else 2 if isinstance(x, tuple) else 3) + 3 * len(hashes)) * 0xC2B2AE3D27D4EB4F % P
 			for item_hash in hashes:
 				h = (h * B + item_hash) % P
 			return h
